@@ -102,3 +102,37 @@ Proof.
   rewrite (rev_loop_pack n (S (length (pack n))) [0] Hn); [| lia | unfold nlen in Hlen; cbn [length]; lia].
   unfold rpack. rewrite pack_body. reflexivity.
 Qed.
+
+(* the same routine as sortedDataReader.ForEachResourceRecord calls it (destination two bytes
+   longer: the location follows the name in the key) *)
+Lemma rev_into_key_buffer : forall n, wf_name n -> nlen (pack n) <= 253 ->
+  rev_into (pack n) (zeros (length (pack n) + 2)) = Val (rpack n ++ [0; 0]).
+Proof.
+  intros n Hn Hlen. unfold rev_into.
+  pose proof (length_pack_ge n) as Hp.
+  assert (Hb : b8 (nlen (pack n) + 255) = N.of_nat (length (pack n) - 1)) by (unfold b8, nlen in *; lia).
+  rewrite Hb.
+  assert (Z : zeros (length (pack n) + 2) = zeros (length (pack n) - 1) ++ [0; 0; 0]).
+  { change [0; 0; 0] with (zeros 3). rewrite <- zeros_app. f_equal. lia. }
+  assert (U : upd (zeros (length (pack n) + 2)) (N.of_nat (length (pack n) - 1)) 0 = Val (zeros (length (pack n) - 1) ++ [0; 0; 0])).
+  { unfold upd. assert (E : (N.of_nat (length (pack n) - 1) <? nlen (zeros (length (pack n) + 2))) = true)
+      by (unfold nlen; rewrite zeros_length; lia).
+    rewrite E, Nat2N.id. rewrite Z at 1 2.
+    rewrite (firstn_zeros_app (length (pack n) - 1) (length (pack n) - 1)) by lia.
+    replace (N.to_nat (N.of_nat (length (pack n) - 1) + 1)) with ((length (pack n) - 1) + 1)%nat by lia.
+    rewrite skipn_app, zeros_length, skipn_all2 by (rewrite zeros_length; lia).
+    replace (length (pack n) - 1 + 1 - (length (pack n) - 1))%nat with 1%nat by lia. reflexivity. }
+  rewrite U. cbn [bind].
+  rewrite (rev_loop_pack n (S (length (pack n))) [0; 0; 0] Hn); [| lia | unfold nlen in Hlen; cbn [length]; lia].
+  unfold rpack. rewrite pack_body, <- app_assoc. reflexivity.
+Qed.
+
+(* the exact reads of the v2 reader (FindSOA, GetNs, additional section) never panic on a
+   wire-valid name: the only panic source outside the recovered callbacks is this routine *)
+Lemma for_each_rr_v2_val : forall {S} st c n loc (f : cb S) s, wf_name n -> nlen (pack n) <= 253 ->
+  exists r, for_each_rr_v2 st c (pack n) loc f s = Val r.
+Proof.
+  intros S st c n loc f s Hn Hlen. unfold for_each_rr_v2. rewrite (rev_into_key_buffer n Hn Hlen). cbn [bind].
+  destruct (if is_loc0 loc then (s, false, c) else for_each_v2 st c _ f s) as [[s1 e1] c1].
+  destruct e1; eexists; reflexivity.
+Qed.
